@@ -95,9 +95,9 @@ def fp_part(part):
 
 
 def fp_ppart(pp):
-    return [sorted((k, repr(v)) for k, v in n.pnote_dict.items()) for n in pp.notes] + \
-           [sorted((k, repr(v)) for k, v in c.items()) for c in pp.controls] + \
-           [sorted((k, repr(v)) for k, v in c.items()) for c in pp.programs] + [pp.sustain_pedal_threshold, pp.ppq, pp.mpq]
+    srt = lambda d: [(k, d[k]) for k in sorted(d.keys())]  # no repr(): it would realise symbolic values
+    return [srt(n.pnote_dict) for n in pp.notes] + [srt(c) for c in pp.controls] + [srt(c) for c in pp.programs] + \
+           [pp.sustain_pedal_threshold, pp.ppq, pp.mpq]
 
 
 def same(a, b):
